@@ -336,6 +336,11 @@ def rule_no_foreign_table_writes(ctx, rid="R16.7"):
     r = ctx.rule(rid, "no function stores into VALIDATORS / META_SCHEMA / TYPE_CHECKER / ID_OF of a class it received or looked up", floor=20)
     tbl = {"VALIDATORS", "META_SCHEMA", "TYPE_CHECKER", "ID_OF", "_DEFAULT_TYPES", "DEFAULT_TYPES", "_CREATED_WITH_DEFAULT_TYPES"}
     V = calls.V
+    # module level: a name bound to `SomeValidator.VALIDATORS` is that class's table itself; a store through it changes the class
+    for (cls_var, alias, key, st) in getattr(prog.tables, "alias_writes", []):
+        r.fail("validators|table-write|%s[%r]" % (alias, key), "jsonschema/validators.py:%d" % st.lineno,
+               "`%s[%r] = ...` at module level stores into %s.VALIDATORS (`%s` is that very dict, not a copy): the existing class gains or loses a keyword" % (
+                   alias, key, cls_var, alias))
     for f in sorted(prog.funcs.values(), key=lambda x: x.qual):
         bad = []
         for w in eff.direct_writes(f):
@@ -458,6 +463,15 @@ def run(ctx):
     rule_no_foreign_table_writes(ctx)
     rule_api_writes_no_shared_state(ctx)
     rule_no_keyword_coupling(ctx)
+    # R16.14: parent and child dispatch a schema's keywords alike (same order, same functions for the keywords not overridden)
+    from .c05 import rule_dispatcher_complete
+    rule_dispatcher_complete(ctx, "R16.14")
+    # R16.15: check_schema is about the class it is called on: registering or deriving another class later does not change it
+    from .c11 import rule_wiring
+    rule_wiring(ctx, "R16.15")
+    # R16.16: a validator's resolver -- and with it the snapshot of registered metaschemas -- is made when the validator is made
+    from .c18 import rule_per_validator_resolver
+    rule_per_validator_resolver(ctx, "R16.16")
     # R16.10: a resolver snapshots the registry at construction; nothing on the validation path reads the live registry, so a
     # later registration cannot change what an existing validator resolves
     from .c18 import rule_registry_read_only
